@@ -78,6 +78,25 @@ var FixedValid = []string{
 	". aaaaaaaaaaaaaaaaaaaaaaaaaaaaaaaa+3 0:1:f 1:1:g 2:1:f\n./d bbbbbbbbbbbbbbbbbbbbbbbbbbbbbbbb+2 0:2:e\n. cccccccccccccccccccccccccccccccc+4 1:2:f 0:4:d/e\n",
 }
 
+// FixedGarbage are hand-written hostile inputs for the no-panic clause,
+// replayed on every run.
+var FixedGarbage = []string{
+	". aaaaaaaaaaaaaaaaaaaaaaaaaaaaaaaa+2 18446744073709551615:2:f\n", // position+size wraps around 2^64
+	". aaaaaaaaaaaaaaaaaaaaaaaaaaaaaaaa+2 1:18446744073709551615:f\n",
+	". aaaaaaaaaaaaaaaaaaaaaaaaaaaaaaaa+2 9223372036854775807:2:f\n",
+	". aaaaaaaaaaaaaaaaaaaaaaaaaaaaaaaa+9223372036854775807 aaaaaaaaaaaaaaaaaaaaaaaaaaaaaaaa+9223372036854775807 bbbbbbbbbbbbbbbbbbbbbbbbbbbbbbbb+3 1:2:f\n",
+	". aaaaaaaaaaaaaaaaaaaaaaaaaaaaaaaa+99999999999999999999999999 0:1:f\n",
+	". aaaaaaaaaaaaaaaaaaaaaaaaaaaaaaaa+2147483648 0:1:f\n",
+	" \n", "\n\n", " ", ".", ". ", ".\n", "\x00", ". \x00 0:0:f\n", "\\", ". d41d8cd98f00b204e9800998ecf8427e+0 0:0:\\\n",
+	". d41d8cd98f00b204e9800998ecf8427e+0 0:0:\\777 0:0:\\\\ 0:0:\\0 0:0:a\\\n",
+	". d41d8cd98f00b204e9800998ecf8427e+0 ::\n", ". d41d8cd98f00b204e9800998ecf8427e+0 0:0:\n", ". d41d8cd98f00b204e9800998ecf8427e+0 0:0:/\n",
+	"./../.. d41d8cd98f00b204e9800998ecf8427e+0 0:0:../../x\n", "./a/ d41d8cd98f00b204e9800998ecf8427e+0 0:0:/b/\n",
+	". D41D8CD98F00B204E9800998ECF8427E+0 0:0:f\n", ". d41d8cd98f00b204e9800998ecf8427e+0+ 0:0:f\n", ". d41d8cd98f00b204e9800998ecf8427e+-0 0:0:f\n",
+	". d41d8cd98f00b204e9800998ecf8427e+0 0:0:f\r\n", ". d41d8cd98f00b204e9800998ecf8427e+0\t0:0:f\n",
+	strings.Repeat(". d41d8cd98f00b204e9800998ecf8427e+0 0:0:f\n", 300),
+	". " + strings.Repeat("aaaaaaaaaaaaaaaaaaaaaaaaaaaaaaaa+1 ", 500) + "0:500:f 499:1:g 0:0:h\n",
+}
+
 // NAnchors: the first NAnchors entries of FixedValid are run by every batch
 // process before anything else, so that the signatures of known root causes
 // are established from the same minimal witnesses everywhere.
@@ -200,6 +219,82 @@ func (r *Reporter) Valid(c *Case, found []Finding, recheck func(text string) []F
 	}
 }
 
+// LenientFeatures extracts block-shape and name-class features from a text
+// that need not be a valid manifest (line by line, the way the Go manifest
+// package tokenizes: the leading run of locator tokens are the blocks).
+func LenientFeatures(text string) []string {
+	f := map[string]bool{}
+	for _, line := range strings.Split(text, "\n") {
+		toks := strings.Split(line, " ")
+		if len(toks) < 2 {
+			continue
+		}
+		var sizes []int64
+		i := 1
+		for ; i < len(toks) && locatorRe.MatchString(toks[i]); i++ {
+			_, sz := LocHashSize(toks[i])
+			sizes = append(sizes, sz)
+		}
+		first, last := -1, -1
+		for k, sz := range sizes {
+			if sz > 0 {
+				if first < 0 {
+					first = k
+				}
+				last = k
+			}
+		}
+		for k, sz := range sizes {
+			if sz != 0 {
+				continue
+			}
+			switch {
+			case first < 0:
+				f["only-zero-length-blocks"] = true
+			case k < first:
+				f["leading-zero-length-block"] = true
+			case k > last:
+				f["trailing-zero-length-block"] = true
+			default:
+				f["interior-zero-length-block"] = true
+			}
+		}
+		names := []string{toks[0]}
+		for ; i < len(toks); i++ {
+			if parts := strings.SplitN(toks[i], ":", 3); len(parts) == 3 {
+				names = append(names, parts[2])
+			}
+		}
+		for _, n := range names {
+			u, _ := Unescape(n)
+			if strings.Contains(u, `\`) {
+				f["backslash"] = true
+			}
+			if strings.Contains(u, " ") {
+				f["space"] = true
+			}
+			if strings.Contains(u, ":") {
+				f["colon"] = true
+			}
+			if hasHighEscape(n) {
+				f["high-byte-escape"] = true
+			}
+			for k := 0; k < len(u); k++ {
+				if u[k] >= 0x80 {
+					f["non-ascii"] = true
+				}
+			}
+		}
+	}
+	var out []string
+	for _, k := range FeatureOrder {
+		if f[k] {
+			out = append(out, k)
+		}
+	}
+	return out
+}
+
 // InvalidClass names the class of an arbitrary input for use in a signature.
 func InvalidClass(text string) string {
 	p, rej := Interpret(text)
@@ -234,6 +329,20 @@ func (r *Reporter) Text(c *Case, fixedClass string, found []Finding, recheck fun
 		}
 		cls := InvalidClass(c.Raw)
 		matched := false
+		// a root cause already established on valid manifests (block shape,
+		// name class) explains the same symptom on an invalid input that
+		// has the same features
+		lf := LenientFeatures(c.Raw)
+		for _, k := range r.known[f.Key] {
+			if len(k) > 0 && k[0] != "plain" && subset(k, lf) {
+				r.violation("C10:"+f.Key+":"+strings.Join(k, "+"), f.Detail+"\n(not minimized: the input has the features of an earlier minimal witness with this signature)", c)
+				matched = true
+				break
+			}
+		}
+		if matched {
+			continue
+		}
 		for _, k := range r.knownText[f.Key] {
 			if k == cls {
 				r.violation("C10:"+f.Key+":"+k, f.Detail, c)
